@@ -255,7 +255,7 @@ def run(ctx):
     from ._treespec import rule_TS
 
     n = rule_TS(ctx, owners=["tree.utils"])
-    ctx.rule_min["TS"] = 4
+    ctx.rule_min["TS"] = 2
 
 
 _C = "phyclone/process_trace/consensus.py"
